@@ -80,6 +80,9 @@ impl Engine for R {
         w: &RangeWitness,
         rng: &mut HRng,
     ) -> Result<RangeProof<RistrettoPoint>, ProofError> {
+        if matches!(rng, HRng::Os) {
+            return RangeProof::prove(t, st, w);
+        }
         RangeProof::prove_with_rng(t, st, w, rng)
     }
 
@@ -143,6 +146,9 @@ impl Engine for F {
         w: &RangeWitness,
         rng: &mut HRng,
     ) -> Result<RangeProof<FP>, ProofError> {
+        if matches!(rng, HRng::Os) {
+            return RangeProof::prove(t, st, w);
+        }
         RangeProof::prove_with_rng(t, st, w, rng)
     }
 
@@ -180,6 +186,8 @@ pub enum HRng {
     Const(u8),
     Period8([u8; 8], usize),
     Counter(u64),
+    /// operating-system entropy; a prover handed this one is called through the convenience entry `RangeProof::prove`
+    Os,
 }
 
 #[derive(Clone, Copy, Debug, PartialEq, Eq, Hash, serde::Serialize, serde::Deserialize)]
@@ -189,6 +197,9 @@ pub enum RngSpec {
     Const(u8),
     Period8(u64),
     Counter(u64),
+    /// `RangeProof::prove` (operating-system entropy): the entry most callers use. Not reproducible byte for byte, so it is only
+    /// generated where the oracle does not depend on the proof bytes of an earlier run
+    Os,
 }
 
 impl RngSpec {
@@ -199,6 +210,7 @@ impl RngSpec {
             RngSpec::Const(b) => HRng::Const(b),
             RngSpec::Period8(p) => HRng::Period8(p.to_le_bytes(), 0),
             RngSpec::Counter(c) => HRng::Counter(c),
+            RngSpec::Os => HRng::Os,
         }
     }
 
@@ -209,11 +221,12 @@ impl RngSpec {
             RngSpec::Const(_) => "const",
             RngSpec::Period8(_) => "period8",
             RngSpec::Counter(_) => "counter",
+            RngSpec::Os => "os-entropy(RangeProof::prove)",
         }
     }
 
     pub fn is_faulty(&self) -> bool {
-        !matches!(self, RngSpec::ChaCha(_))
+        !matches!(self, RngSpec::ChaCha(_) | RngSpec::Os)
     }
 }
 
@@ -248,6 +261,7 @@ impl RngCore for HRng {
                     *c = c.wrapping_add(1);
                 }
             },
+            HRng::Os => rand_core::OsRng.fill_bytes(dest),
         }
     }
 
